@@ -490,6 +490,8 @@ class RedeemScript(Script):
         quorum_m = op_code_to_number(self.commands[0])
         # 3 because quorum_m, OP_CHECKMULTISIG, and bitcoin off-by-one error
         quorum_n = len(self.commands) - 3
+        if op_code_to_number(self.commands[-2]) != quorum_n:
+            raise ValueError(f"OP_n does not match the number of pubkeys: {self}")
         return quorum_m, quorum_n
 
     def signing_pubkeys(self):
@@ -601,6 +603,9 @@ class WitnessScript(Script):
 
         quorum_m = OP_CODE_NAMES[self.commands[0]].split("OP_")[1]
         quorum_n = OP_CODE_NAMES[self.commands[-2]].split("OP_")[1]
+        # m, OP_n and OP_CHECKMULTISIG surround the pubkeys
+        if int(quorum_n) != len(self.commands) - 3:
+            raise ValueError(f"OP_n does not match the number of pubkeys: {self}")
 
         return int(quorum_m), int(quorum_n)
 
